@@ -13,7 +13,11 @@ class LazyPredicate[T](Predicate[T]):
 
     @cached_property
     def predicate(self) -> Predicate | None:
-        return find_predicate_by_ref(self.frame, self.ref)
+        found = find_predicate_by_ref(self.frame, self.ref)
+        if found is None:
+            # not on the call stack: look in the namespace of the module that wrote lazy_p(ref)
+            found = (getattr(self, "scope", None) or {}).get(self.ref)
+        return found
 
     def __call__(self, x: T) -> bool:
         self.frame = inspect.currentframe()
